@@ -1,10 +1,9 @@
 /-
-  An executable check `wfB` that a script is a well-formed edit (`Render.WF` + the root gate), and its soundness.
-  The driver evaluates it on every case of the `render` stream, so the hypothesis `script_wellformed` of the C06
-  theorems is validated on every generated input; `C06.project_from_checked` / `project_to_checked` hold for every
-  input on which the check passes.
+  An executable check `wfB` that a script is a well-formed edit (`Render.WF` + the root gate), and its soundness for
+  trees with distinct keys (`scriptOKB_sound`).  The driver evaluates it on every case of the `render` stream: an
+  executable cross-check of `Render.script_wellformed` (which proves the same for every engine script).
 -/
-import GtModel.Proofs.RenderMain
+import GtModel.Proofs.RenderEdits
 
 namespace GtModel.Render
 open GtModel
@@ -15,26 +14,56 @@ def itemEqB : Item → Item → Bool
   | .kv k v, .kv k' v' => k == k' && v.eq v'
   | _, _ => false
 
-theorem itemEqB_sound {a b : Item} (h : itemEqB a b = true) : ValSim a.val b.val := by
-  match a, b, h with
-  | .tree a, .tree b, h => exact .eqv h
-  | .kv k v, .kv k' v', h =>
+/-- every mapping inside the item has distinct keys -/
+def Item.kd : Item → Bool
+  | .tree t => t.keysDistinct
+  | .kv _ v => v.keysDistinct
+
+theorem children_kd (x : Item) (h : x.kd = true) : ∀ c ∈ x.children, c.kd = true := by
+  intro c hc
+  match x, h with
+  | .tree (.leaf _), _ => simp [Item.children] at hc
+  | .tree (.list cs), h =>
+    simp only [Item.children, List.mem_map] at hc
+    obtain ⟨a, ha, rfl⟩ := hc
+    exact (kd_list cs).1 h a ha
+  | .tree (.dict kvs), h =>
+    simp only [Item.children, List.mem_map] at hc
+    obtain ⟨a, ha, rfl⟩ := hc
+    exact ((kd_dict kvs).1 h).2 a ha
+  | .tree (.fdict kvs), h =>
+    simp only [Item.children, List.mem_map] at hc
+    obtain ⟨a, ha, rfl⟩ := hc
+    exact ((kd_fdict kvs).1 h).2 a ha
+  | .kv k v, h =>
+    simp only [Item.children, List.mem_cons, List.mem_nil_iff, or_false] at hc
+    rcases hc with rfl | rfl
+    · rfl
+    · exact h
+
+theorem itemEqB_sound {a b : Item} (ha : a.kd = true) (hb : b.kd = true) (h : itemEqB a b = true) :
+    ValPerm a.val b.val := by
+  match a, b, ha, hb, h with
+  | .tree a, .tree b, ha, hb, h => exact eq_valPerm a b ha hb h
+  | .kv k v, .kv k' v', ha, hb, h =>
     simp only [itemEqB, Bool.and_eq_true, beq_iff_eq] at h
     obtain ⟨rfl, hv⟩ := h
-    exact .pair (.eqv hv)
+    exact .pair (eq_valPerm v v' ha hb hv)
 
 def listEqB : List Item → List Item → Bool
   | [], [] => true
   | a :: as, b :: bs => itemEqB a b && listEqB as bs
   | _, _ => false
 
-theorem listEqB_sound : ∀ {as bs : List Item}, listEqB as bs = true → ValSimL (as.map Item.val) (bs.map Item.val)
-  | [], [], _ => .nil
-  | a :: as, b :: bs, h => by
+theorem listEqB_sound : ∀ {as bs : List Item}, (∀ a ∈ as, a.kd = true) → (∀ b ∈ bs, b.kd = true) →
+    listEqB as bs = true → ValPermL (as.map Item.val) (bs.map Item.val)
+  | [], [], _, _, _ => .nil
+  | a :: as, b :: bs, ha, hb, h => by
     simp only [listEqB, Bool.and_eq_true] at h
-    exact .cons (itemEqB_sound h.1) (listEqB_sound h.2)
-  | [], _ :: _, h => by simp [listEqB] at h
-  | _ :: _, [], h => by simp [listEqB] at h
+    exact .cons (itemEqB_sound (ha a (by simp)) (hb b (by simp)) h.1)
+      (listEqB_sound (fun x hx => ha x (by simp [hx])) (fun x hx => hb x (by simp [hx])) h.2)
+  | [], _ :: _, _, _, h => by simp [listEqB] at h
+  | _ :: _, [], _, _, h => by simp [listEqB] at h
 
 def removeFirst (p : Item → Bool) : List Item → Option (List Item)
   | [] => none
@@ -61,18 +90,20 @@ def permB : List Item → List Item → Bool
       | some bs' => permB as bs'
       | none => false
 
-theorem permB_sound : ∀ (as bs : List Item), permB as bs = true → ValSimP (as.map Item.val) (bs.map Item.val)
-  | [], bs, h => by
+theorem permB_sound : ∀ (as bs : List Item), (∀ a ∈ as, a.kd = true) → (∀ b ∈ bs, b.kd = true) →
+    permB as bs = true → ValPermP (as.map Item.val) (bs.map Item.val)
+  | [], bs, _, _, h => by
     have : bs = [] := by simpa [permB] using h
     subst this; exact .nil
-  | a :: as, bs, h => by
+  | a :: as, bs, ha, hbs, h => by
     simp only [permB] at h
     split at h
     · rename_i bs' hr
       obtain ⟨b, hb, hperm⟩ := removeFirst_some _ _ _ hr
-      have ih := permB_sound as bs' h
-      have h1 : ValSimP ((a :: as).map Item.val) ((b :: bs').map Item.val) := by
-        simpa using ValSimP.cons (itemEqB_sound hb) ih
+      have hmem : ∀ x ∈ b :: bs', x.kd = true := fun x hx => hbs x (hperm.mem_iff.2 hx)
+      have ih := permB_sound as bs' (fun x hx => ha x (by simp [hx])) (fun x hx => hmem x (by simp [hx])) h
+      have h1 : ValPermP ((a :: as).map Item.val) ((b :: bs').map Item.val) := by
+        simpa using ValPermP.cons (itemEqB_sound (ha a (by simp)) (hmem b (by simp)) hb) ih
       exact .permR h1 (hperm.symm.map Item.val)
     · cases h
 
@@ -106,7 +137,8 @@ theorem keyOKB_sound {fk tk : Str} {ke : Script} (h : keyOKB fk tk ke = true) : 
 def gateB (x y : Item) (s : Script) : Bool :=
   s.kind != .remove && s.kind != .insert && (s.cost != 0 || isCompound s.kind || itemEqB x y)
 
-theorem gateB_sound {x y : Item} {s : Script} (h : gateB x y s = true) : Gate x y s := by
+theorem gateB_sound {x y : Item} {s : Script} (hx : x.kd = true) (hy : y.kd = true) (h : gateB x y s = true) :
+    Gate x y s := by
   simp only [gateB, Bool.and_eq_true, Bool.or_eq_true, bne_iff_ne, ne_eq] at h
   obtain ⟨⟨h1, h2⟩, h3⟩ := h
   refine ⟨h1, h2, ?_⟩
@@ -114,7 +146,7 @@ theorem gateB_sound {x y : Item} {s : Script} (h : gateB x y s = true) : Gate x 
   rcases h3 with (h3 | h3) | h3
   · exact absurd hc h3
   · exact Or.inl h3
-  · exact Or.inr (itemEqB_sound h3)
+  · exact Or.inr (itemEqB_sound hx hy h3)
 
 def coverB (x y : Item) (subs : List Script) : Bool :=
   match x.brackets, y.brackets with
@@ -128,7 +160,30 @@ def coverB (x y : Item) (subs : List Script) : Bool :=
         permB (sideItems false x.children y.children subs) y.children)
   | _, _ => false
 
-theorem coverB_sound {x y : Item} {subs : List Script} (h : coverB x y subs = true) : Cover x y subs := by
+theorem sideItems_kd (side : Bool) (fcs tcs : List Item) (subs : List Script) (hf : ∀ a ∈ fcs, a.kd = true)
+    (ht : ∀ b ∈ tcs, b.kd = true) : ∀ z ∈ sideItems side fcs tcs subs, z.kd = true := by
+  intro z hz
+  simp only [sideItems, List.mem_filterMap] at hz
+  obtain ⟨s, _, hs⟩ := hz
+  split at hs
+  · cases hs
+  · obtain ⟨p, hp, rfl⟩ := Option.map_eq_some_iff.1 hs
+    obtain ⟨a, b⟩ := p
+    have hm := resolve_mem _ _ _ _ _ hp
+    cases side
+    · simp only [sideItem, Bool.false_eq_true, if_false]
+      rcases hm.2 with h | h
+      · exact hf _ h
+      · exact ht _ h
+    · simp only [sideItem, if_true]
+      rcases hm.1 with h | h
+      · exact hf _ h
+      · exact ht _ h
+
+theorem coverB_sound {x y : Item} {subs : List Script} (hx : x.kd = true) (hy : y.kd = true)
+    (h : coverB x y subs = true) : Cover x y subs := by
+  have hcx := children_kd x hx
+  have hcy := children_kd y hy
   unfold coverB at h
   split at h
   · rename_i o c o' c' hx hy
@@ -137,10 +192,11 @@ theorem coverB_sound {x y : Item} {subs : List Script} (h : coverB x y subs = tr
     refine ⟨o, c, hx, hy, ?_⟩
     by_cases ho : o = 91
     · simp only [ho, beq_self_eq_true, if_true, Bool.and_eq_true] at h3 ⊢
-      exact ⟨listEqB_sound h3.1, listEqB_sound h3.2⟩
+      exact ⟨listEqB_sound (sideItems_kd _ _ _ _ hcx hcy) hcx h3.1, listEqB_sound (sideItems_kd _ _ _ _ hcx hcy) hcy h3.2⟩
     · have : (o == 91) = false := by simpa using ho
       simp only [this, Bool.false_eq_true, if_false, Bool.and_eq_true, ho] at h3 ⊢
-      exact ⟨permB_sound _ _ h3.1, permB_sound _ _ h3.2⟩
+      exact ⟨permB_sound _ _ (sideItems_kd _ _ _ _ hcx hcy) hcx h3.1,
+        permB_sound _ _ (sideItems_kd _ _ _ _ hcx hcy) hcy h3.2⟩
   · cases h
 
 mutual
@@ -177,9 +233,10 @@ theorem resolve_insert (fcs tcs : List Item) (k : Kind) (fi ti : Ix) (c : Nat) (
   obtain ⟨a, _, rfl, rfl⟩ := h
   rfl
 
-def Sound (s : Script) : Prop := ∀ x y : Item, wfB x y s = true → WF x y s
+def Sound (s : Script) : Prop := ∀ x y : Item, x.kd = true → y.kd = true → wfB x y s = true → WF x y s
 
-theorem wfSubsB_sound (fcs tcs : List Item) (subs : List Script) (ih : ∀ s ∈ subs, Sound s)
+theorem wfSubsB_sound (fcs tcs : List Item) (hf : ∀ a ∈ fcs, a.kd = true) (ht : ∀ b ∈ tcs, b.kd = true)
+    (subs : List Script) (ih : ∀ s ∈ subs, Sound s)
     (h : wfSubsB fcs tcs subs = true) : WFSubs fcs tcs subs := by
   induction subs with
   | nil => simp [WFSubs]
@@ -198,19 +255,24 @@ theorem wfSubsB_sound (fcs tcs : List Item) (subs : List Script) (ih : ∀ s ∈
           have := resolve_insert fcs tcs k fi ti c sb x y hk hres
           subst hk
           simpa [WF] using this
-      · exact ih s (by simp) x y hw
+      · have hm := resolve_mem _ _ _ _ _ hres
+        have hxk : x.kd = true := by rcases hm.1 with h | h; exact hf _ h; exact ht _ h
+        have hyk : y.kd = true := by rcases hm.2 with h | h; exact hf _ h; exact ht _ h
+        exact ih s (by simp) x y hxk hyk hw
     · cases h1
 
 theorem wfB_sound : ∀ s, Sound s := by
   apply scriptInd
-  intro k fi ti c subs ih x y h
+  intro k fi ti c subs ih x y hx hy h
+  have hcx := children_kd x hx
+  have hcy := children_kd y hy
   cases k with
   | match_ =>
     simp only [wfB, Bool.or_eq_true, decide_eq_true_eq] at h
     simp only [WF]
     rcases h with h | h
     · exact Or.inl h
-    · exact Or.inr (itemEqB_sound h)
+    · exact Or.inr (itemEqB_sound hy hx h)
   | replace => simpa [wfB, WF] using h
   | remove => simp [WF]
   | insert => simp [wfB] at h
@@ -221,35 +283,36 @@ theorem wfB_sound : ∀ s, Sound s := by
       simp only [WF]
       exact ⟨a, b, rfl, rfl, strOKB_sound h⟩
   | kvp =>
-    match x, y, subs, h, ih with
-    | .kv fk fv, .kv tk tv, [ke, ve], h, ih =>
+    match x, y, subs, h, ih, hx, hy with
+    | .kv fk fv, .kv tk tv, [ke, ve], h, ih, hx, hy =>
       simp only [wfB, Bool.and_eq_true] at h
       simp only [WF]
-      exact ⟨keyOKB_sound h.1.1, ih ve (by simp) _ _ h.1.2, gateB_sound h.2⟩
+      exact ⟨keyOKB_sound h.1.1, ih ve (by simp) (.tree fv) (.tree tv) hx hy h.1.2,
+        gateB_sound (x := .tree fv) (y := .tree tv) hx hy h.2⟩
   | ed =>
     simp only [wfB, Bool.and_eq_true] at h
     simp only [WF]
-    exact ⟨coverB_sound h.1, wfSubsB_sound _ _ _ ih h.2⟩
+    exact ⟨coverB_sound hx hy h.1, wfSubsB_sound _ _ hcx hcy _ ih h.2⟩
   | fixed =>
     simp only [wfB, Bool.and_eq_true] at h
     simp only [WF]
-    exact ⟨coverB_sound h.1, wfSubsB_sound _ _ _ ih h.2⟩
+    exact ⟨coverB_sound hx hy h.1, wfSubsB_sound _ _ hcx hcy _ ih h.2⟩
   | ms =>
     simp only [wfB, Bool.and_eq_true] at h
     simp only [WF]
-    exact ⟨coverB_sound h.1, wfSubsB_sound _ _ _ ih h.2⟩
+    exact ⟨coverB_sound hx hy h.1, wfSubsB_sound _ _ hcx hcy _ ih h.2⟩
   | fk =>
     simp only [wfB, Bool.and_eq_true] at h
     simp only [WF]
-    exact ⟨coverB_sound h.1, wfSubsB_sound _ _ _ ih h.2⟩
+    exact ⟨coverB_sound hx hy h.1, wfSubsB_sound _ _ hcx hcy _ ih h.2⟩
 
 /-- the executable form of `C06.ScriptWellFormed` -/
 def scriptOKB (f t : Tree) (s : Script) : Bool :=
   wfB (.tree f) (.tree t) s && gateB (.tree f) (.tree t) s
 
-theorem scriptOKB_sound (f t : Tree) (s : Script) (h : scriptOKB f t s = true) :
-    WF (.tree f) (.tree t) s ∧ Gate (.tree f) (.tree t) s := by
+theorem scriptOKB_sound (f t : Tree) (s : Script) (hf : f.KeysDistinct) (ht : t.KeysDistinct)
+    (h : scriptOKB f t s = true) : WF (.tree f) (.tree t) s ∧ Gate (.tree f) (.tree t) s := by
   simp only [scriptOKB, Bool.and_eq_true] at h
-  exact ⟨wfB_sound s _ _ h.1, gateB_sound h.2⟩
+  exact ⟨wfB_sound s (.tree f) (.tree t) hf ht h.1, gateB_sound (x := .tree f) (y := .tree t) hf ht h.2⟩
 
 end GtModel.Render
